@@ -205,20 +205,51 @@ def lookup_rejects_empty_labels(p, body):
         return False, et, None, "expected one public_suffix call"
     cb = calls[0][0]
     N = normal.Normalizer(p, summary.Summaries(p))
-    conds = normal.conditions(N, p, et, cb, T) or []
-    pats = set()
+    ok, wit = empty_label_tests(p, N, normal.conditions(N, p, et, cb, T) or [], ("param", 2))
+    return ok, et, cb, wit
+
+
+def empty_label_tests(p, N, conds, whole):
+    """do the necessary conditions of a lookup say that `whole` (the complete input) has no empty label?  The three tests
+    — no leading dot, no trailing dot, no two dots in a row — on their false edges, in any spelling: starts_with / ends_with /
+    contains on the string, first() / last() / windows(2) on its bytes, or a split on '.' whose labels are tested for
+    emptiness.  -> (holds, witness)"""
+    from . import flow, names
+    def strip(x):
+        while isinstance(x, tuple) and len(x) == 4 and x[0] == "call" and x[2] and any(names.is_(x[1], s) for s in ("str::as_bytes", "Deref::deref", "AsRef::as_ref", "String::as_str")):
+            x = x[2][0]
+        return x
+    is_c = lambda x, *pats: isinstance(x, tuple) and len(x) == 4 and x[0] == "call" and any(names.is_(x[1], s) for s in pats)
+    DOT = ("const", 46)
+    some_dot = ("agg", "core::option::Option", "Some", (("0", DOT),))
+    seen = set()
     split_form = False
     for sb, labs, t in conds:
         a, pol = flow.bool_atom(t, labs)
-        if isinstance(a, tuple) and len(a) == 4 and a[0] == "call" and pol is False and a[2] and a[2][0] == ("param", 2):
-            for x in a[2][1:]:
-                if x and x[0] == "const":
-                    pats.add((a[1].rsplit("::", 1)[-1], x[1]))
-        if isinstance(a, tuple) and len(a) == 4 and a[0] == "call" and pol is False and names.is_(a[1], "Iterator::any") and flow.term_contains(a, lambda y: isinstance(y, tuple) and len(y) == 4 and y[0] == "call" and y[1].endswith("::split") and y[2][0] == ("param", 2) and y[2][1] == ("const", 46)):
-            split_form = True
-    need = {("starts_with", 46), ("ends_with", 46), ("contains", "..")}
-    ok = need <= pats or split_form
-    return ok, et, cb, "the lookup is conditioned on the whole input passing %s" % (sorted(map(str, pats)) if not split_form else "split('.').any(empty) == false")
+        if pol is False and is_c(a, "str::starts_with", "str::ends_with", "str::contains") and len(a[2]) == 2 and strip(a[2][0]) == whole:
+            kind = a[1].rsplit("::", 1)[-1]
+            if kind in ("starts_with", "ends_with") and a[2][1] in (DOT, ("const", ".")):
+                seen.add(kind)
+            if kind == "contains" and a[2][1] in (("const", ".."), ("const", b"..")):
+                seen.add("contains")
+        if pol is False and is_c(a, "Iterator::any"):
+            src = a[2][0]
+            if flow.term_contains(src, lambda y: is_c(y, "str::split") and strip(y[2][0]) == whole and y[2][1] == DOT):
+                split_form = True
+            if is_c(src, "slice::windows") and len(src[2]) == 2 and strip(src[2][0]) == whole and src[2][1] == ("const", 2):
+                body = N.norm(N.apply(a[2][1], (("bound", 0),), 0))
+                e = flow.eq_test(body, ("notin", "0"))
+                if e is not None and e[1] is True and any(x in (("const", b".."), ("const", ".."), ("array", (DOT, DOT))) for x in e[0]) and any(flow.term_contains(x, lambda y: y == ("bound", 0)) for x in e[0]):
+                    seen.add("contains")
+        e = flow.eq_test(t, labs)
+        if e is not None and e[1] is False and len(e[0]) == 2 and some_dot in e[0]:
+            other = [x for x in e[0] if x != some_dot][0]
+            if is_c(other, "slice::first") and strip(other[2][0]) == whole:
+                seen.add("starts_with")
+            if is_c(other, "slice::last") and strip(other[2][0]) == whole:
+                seen.add("ends_with")
+    ok = seen >= {"starts_with", "ends_with", "contains"} or split_form
+    return ok, "the lookup is conditioned on the whole input passing %s" % (("no leading dot / no trailing dot / no '..': %s" % sorted(seen)) if not split_form else "split('.').any(empty) == false")
 
 
 def etld_rejects_empty_labels(p):
@@ -238,20 +269,8 @@ def etld_rejects_empty_labels(p):
         return True, False, et, None, "expected one public_suffix call"
     cb = calls[0][0]
     N = normal.Normalizer(p, summary.Summaries(p))
-    conds = normal.conditions(N, p, et, cb, T) or []
-    pats = set()
-    split_form = False
-    for sb, labs, t in conds:
-        a, pol = flow.bool_atom(t, labs)
-        if isinstance(a, tuple) and len(a) == 4 and a[0] == "call" and pol is False and a[2] and a[2][0] == ("param", 2):
-            for x in a[2][1:]:
-                if x and x[0] == "const":
-                    pats.add((a[1].rsplit("::", 1)[-1], x[1]))
-        if isinstance(a, tuple) and len(a) == 4 and a[0] == "call" and pol is False and names.is_(a[1], "Iterator::any") and flow.term_contains(a, lambda y: isinstance(y, tuple) and len(y) == 4 and y[0] == "call" and y[1].endswith("::split") and y[2][0] == ("param", 2) and y[2][1] == ("const", 46)):
-            split_form = True
-    need = {("starts_with", 46), ("ends_with", 46), ("contains", "..")}
-    ok = need <= pats or split_form
-    return True, ok, et, cb, "the lookup is conditioned on the whole input passing %s" % (sorted(map(str, pats)) if not split_form else "split('.').any(empty) == false")
+    ok, wit = empty_label_tests(p, N, normal.conditions(N, p, et, cb, T) or [], ("param", 2))
+    return True, ok, et, cb, wit
 
 
 def u2f_body(p, name):
